@@ -1998,10 +1998,10 @@ class ParameterModelMapper(
                 f'Its type is {classname(sources)}')
 
         src_selection_mask = np.zeros((len(src_model_idxs),), dtype=bool)
-        for smidx in src_model_idxs:
+        for (i, smidx) in enumerate(src_model_idxs):
             src = self._models[smidx]
             if src in sources:
-                src_selection_mask[smidx] = True
+                src_selection_mask[i] = True
 
         src_model_idxs = src_model_idxs[src_selection_mask]
 
